@@ -7,40 +7,44 @@
 (***************************************************************************)
 EXTENDS Patterning, TLC, Json
 CONSTANTS MaxLen, EmitRecords, CheckDef
-VARIABLE pat
-vars == <<pat>>
+VARIABLES pat, d      \* d: derived values of pat, kept in the state so they are computed once
+vars == <<pat, d>>
 
-Init == pat = <<>>
-Next == Len(pat) < MaxLen /\ \E c \in {1, -1, 0} : pat' = Append(pat, c)
+Derive(x) == [dn |-> DeltaNum(x), mn |-> DeltaMaxNum(NPos(x), NNeg(x), NNeut(x)),
+              msym |-> DeltaMaxNum(NNeg(x), NPos(x), NNeut(x)),
+              scd |-> [k \in 1..(Len(x)-1) |-> SCDCoeff(x, k)]]
+Init == pat = <<>> /\ d = Derive(<<>>)
+Next == Len(pat) < MaxLen /\ \E c \in {1, -1, 0} : pat' = Append(pat, c) /\ d' = Derive(Append(pat, c))
 Spec == Init /\ [][Next]_vars
 
 p == NPos(pat)
 n == NNeg(pat)
 z == NNeut(pat)
-dn == DeltaNum(pat)
-mn == DeltaMaxNum(p, n, z)
+dn == d.dn
+mn == d.mn
+KappaOfState == IF mn = BZero THEN KappaSentinel ELSE Clamp(RMk(1, dn, mn))
 
 \* C02 (M): the scaled integer form is the definition
 DeltaIsDefinition == (CheckDef /\ Len(pat) >= 1) => REq(Delta(pat), DeltaDef(pat))
 DeltaZeroShort == Len(pat) <= 4 => dn = BZero
 \* C01 (M)
 SentinelIffNoVariance == (mn = BZero) => (dn = BZero)      \* and every arrangement is a state of this run
-KappaWellDefined == (p + n > 0 /\ mn # BZero) => REq(Kappa(pat), Clamp(RMk(1, dn, mn)))
-KappaRange == KappaInRange(Kappa(pat))                     \* violated by the heuristic family: finding K1
+KappaWellDefined == (p + n > 0 /\ mn # BZero) => (KappaOfState.s = 1 \/ dn = BZero)
+KappaRange == KappaInRange(KappaOfState)                     \* violated by the heuristic family: finding K1
 \* K1 as a class: the only way out of range is delta > 1.1 * (family maximum)
-KappaRangeOrK1 == KappaInRange(Kappa(pat)) \/ BLe(BMulSmall(mn, 11), BMulSmall(dn, 10))
+KappaRangeOrK1 == KappaInRange(KappaOfState) \/ BLe(BMulSmall(mn, 11), BMulSmall(dn, 10))
 \* C05 (M)
-ReverseInvariant == LET r == Rev(pat) IN DeltaNum(r) = dn /\ \A d \in 1..(Len(pat)-1) : SCDCoeff(r, d) = SCDCoeff(pat, d)
-InvertInvariant  == LET r == Inv(pat) IN DeltaNum(r) = dn /\ \A d \in 1..(Len(pat)-1) : SCDCoeff(r, d) = SCDCoeff(pat, d)
-DMaxSymmetric == DeltaMaxNum(n, p, z) = mn
+ReverseInvariant == LET r == Rev(pat) IN DeltaNum(r) = dn /\ \A k \in 1..(Len(pat)-1) : SCDCoeff(r, k) = d.scd[k]
+InvertInvariant  == LET r == Inv(pat) IN DeltaNum(r) = dn /\ \A k \in 1..(Len(pat)-1) : SCDCoeff(r, k) = d.scd[k]
+DMaxSymmetric == d.msym = mn
 \* C03 (M)
 FamilyIsArrangement == \A c \in Family(p, n, z) : Len(c) = Len(pat) /\ NPos(c) = p /\ NNeg(c) = n
 \* C07 (M)
-SCDZeroFewCharges == p + n < 2 => \A d \in 1..(Len(pat)-1) : SCDCoeff(pat, d) = 0
+SCDZeroFewCharges == p + n < 2 => \A k \in 1..(Len(pat)-1) : d.scd[k] = 0
 
 Rec == [x |-> pat, dn |-> dn, mn |-> mn,
         dd |-> IF p + n = 0 THEN BOne ELSE DeltaDenOf(Len(pat), p, n),
-        ks |-> Kappa(pat).s, kn |-> Kappa(pat).n, kd |-> Kappa(pat).d,
-        scd |-> [d \in 1..(Len(pat)-1) |-> SCDCoeff(pat, d)]]
+        ks |-> KappaOfState.s, kn |-> KappaOfState.n, kd |-> KappaOfState.d,
+        scd |-> d.scd]
 Emit == (EmitRecords /\ Len(pat) >= 1) => PrintT(<<"REC", ToJson(Rec)>>)
 =============================================================================
